@@ -266,7 +266,7 @@ fn shorthands(cfg: &Cfg, rep: &mut Report) {
         (b.0, b.1.get(), b.2.get())
     };
     // helper: judge a shorthand call
-    let mut judge = |name: &'static str, args: [i64; 3], valid: bool, r: Result<(u8, u8, u8), String>, exp: (u8, u8, u8), rep: &mut Report| {
+    let judge = |name: &'static str, args: [i64; 3], valid: bool, r: Result<(u8, u8, u8), String>, exp: (u8, u8, u8), rep: &mut Report| {
         rep.evaluations += 1;
         let rp = json!({"kind":"shorthand","fn":name,"args":args});
         match (r, valid) {
